@@ -69,6 +69,10 @@ def build_specs(basic_nodes: dict, basic_marks: dict, list_nodes: dict) -> dict:
     n = _strip(ln)
     n["iso"] = {"group": "block", "content": "block+", "isolating": True}
     Z["iso"] = {"nodes": n, "marks": _strip(basic_marks)}
+    # isolating node that carries an attribute (two boxes differ by their id)
+    n = _strip(ln)
+    n["iso"] = {"group": "block", "content": "block+", "isolating": True, "attrs": {"id": {"default": 0}}}
+    Z["iso_attr"] = {"nodes": n, "marks": _strip(basic_marks)}
     # isolating node with a SEQUENCE-like content expression (its start state differs from the later ones)
     n = _strip(ln)
     n["list_item"] = {**n["list_item"], "isolating": True}
